@@ -136,11 +136,15 @@ func runFmtCase(env *Env, id string, c fmtCase, dir string) {
 	for hi, h := range c.Chain {
 		ev := fmtEvent{ID: id, Hop: hi, H: h, In: cur, Out: []fmtAl{}}
 		var outs []align.Alignment
-		func() {
+		done := make(chan struct{})
+		hpanic := ""
+		go func() {
+			defer close(done)
 			defer func() {
 				if r := recover(); r != nil {
 					if hp, ok := r.(harnessPanic); ok {
-						panic(string(hp))
+						hpanic = string(hp)
+						return
 					}
 					ev.Kind, ev.Msg = "panic", fmt.Sprint(r)
 				}
@@ -241,6 +245,16 @@ func runFmtCase(env *Env, id string, c fmtCase, dir string) {
 				ev.Out = append(ev.Out, viewAl(a))
 			}
 		}()
+		// a reader that does not come back (a stream longer than a channel's capacity read before anyone listens, ...)
+		select {
+		case <-done:
+			if hpanic != "" {
+				panic(hpanic)
+			}
+		case <-time.After(fmtHopTimeout):
+			env.Emit(fmtEvent{ID: id, Hop: hi, H: h, In: cur, Out: []fmtAl{}, Kind: "hang", Msg: "the hop did not return"})
+			return
+		}
 		env.Emit(ev)
 		if ev.Kind != "ok" {
 			return
@@ -250,6 +264,8 @@ func runFmtCase(env *Env, id string, c fmtCase, dir string) {
 }
 
 var fmtHopCount, fmtCliCount int
+
+const fmtHopTimeout = 30 * time.Second
 
 // cliReformat writes the alignments through the command line: they are given as FASTA (one alignment) or as a Phylip
 // stream (several) - only when reading that input back gives the same alignments -, from a file, from "-" or from the
@@ -430,13 +446,20 @@ func randFmtCase(rng *rand.Rand, tier string) fmtCase {
 		c.Chain = append(c.Chain, h)
 	}
 	nal := 1
-	if rng.Intn(4) == 0 {
+	long := rng.Intn(40) == 0
+	if long || rng.Intn(4) == 0 {
 		// a multi-alignment stream: Phylip only
 		nal = 2 + rng.Intn(3)
+		if long {
+			nal = 14 + rng.Intn(8) // more alignments than the reader's channel holds (bootstrap replicates in one file)
+		}
 		h := c.Chain[0]
 		h.Fmt = "phylip"
 		h.Strict, h.Oneline, h.Noblock = rng.Intn(3) == 0, rng.Intn(3) == 0, rng.Intn(3) == 0
 		strict = h.Strict
+		if long {
+			h.Auto, h.Via = true, []string{"mem", "gz"}[rng.Intn(2)]
+		}
 		c.Chain = []fmtHop{h}
 	}
 	for i := 0; i < nal; i++ {
@@ -731,12 +754,17 @@ func validFiles(rng *rand.Rand) map[string][]string {
 		"#NEXUS\nBEGIN TAXA;\n DIMENSIONS NTAX=3;\n TAXLABELS a b c;\nEND;\nBEGIN DATA;\n DIMENSIONS NTAX=2 NCHAR=4;\n FORMAT DATATYPE=DNA;\n MATRIX\n a ACGT\n b AC-T\n c AC-T\n ;\nEND;\n")
 	// an empty command before DIMENSIONS (the declared NTAX still binds)
 	out["nexus"] = append(out["nexus"], "#NEXUS\nBEGIN DATA;\n;\n DIMENSIONS NTAX=3 NCHAR=4;\n FORMAT DATATYPE=DNA;\n MATRIX\n a ACGT\n b AC-T\n ;\nEND;\n")
+	// FORMAT symbols longer than one byte (a real character, a damaged byte): the rows are measured against NCHAR as bytes
+	out["nexus"] = append(out["nexus"],
+		"#NEXUS\nBEGIN DATA;\nDIMENSIONS NTAX=2 NCHAR=6;\nFORMAT DATATYPE=DNA GAP=\xc3\xa9 MISSING=?;\nMATRIX\na ACG\xc3\xa9T\nb AC\xc3\xa9GT\n;\nEND;\n",
+		"#NEXUS\nBEGIN DATA;\nDIMENSIONS NTAX=2 NCHAR=6;\nFORMAT DATATYPE=DNA GAP=- MISSING=\xc3\xa9;\nMATRIX\na ACG\xc3\xa9T\nb AC\xc3\xa9GT\n;\nEND;\n",
+		"#NEXUS\nBEGIN DATA;\nDIMENSIONS NTAX=2 NCHAR=5;\nFORMAT DATATYPE=DNA GAP=\xe9;\nMATRIX\na ACG\xe9T\nb AC\xe9GT\n;\nEND;\n")
 	out["partition"] = []string{"DNA, p1 = 1-4\nDNA, p2 = 5-12\n", "M1, c1 = 1-12/3\nM1, c2 = 2-12/3\nM2, c3 = 3-12/3\n", "WAG, g1 = 1-3, 7-9\nLG, g2 = 4-6,10-12\n", "DNA,p=1-6/2,7-12\nDNA,q=2-6/2\n",
 		"DNA, p1 = 1-12/9223372036854775807\nDNA, p2 = 2-12\n", "DNA, p1 = 2-12/4611686018427387904, 1-1\nDNA, p2 = 3-12\n"}
 	return out
 }
 
-var mutBytes = []byte{' ', '\n', '\t', ';', '[', ']', '=', '#', '>', '/', '-', '0', '9', 'A', 'z', '\r', ',', '.'}
+var mutBytes = []byte{' ', '\n', '\t', ';', '[', ']', '=', '#', '>', '/', '-', '0', '9', 'A', 'z', '\r', ',', '.', 0xe9}
 
 func mutations(rng *rand.Rand, text string, full bool) []string {
 	b := []byte(text)
